@@ -30,7 +30,7 @@ func H_C03_bind() {
 	for i := 1; i <= np; i++ {
 		params = append(params, fmt.Sprintf("p%d", i))
 	}
-	kwNames := []string{"k1", "k2"}[:nk]
+	kwNames := []string{"k1", "_k2"}[:nk] // (the second keyword parameter has a private name)
 	for i, k := range kwNames {
 		params = append(params, fmt.Sprintf("%s: %d", k, 91+i))
 	}
@@ -64,7 +64,7 @@ func H_C03_bind() {
 	passed := map[string]int64{}
 	var order []string
 	var before, after, unpack []string
-	for i, k := range []string{"k1", "k2", unknown} {
+	for i, k := range []string{"k1", "_k2", unknown} {
 		v := int64(50 + i)
 		switch rt.Choice(4) {
 		case 1:
@@ -240,9 +240,13 @@ var c03Scenarios = []c03S{
 	{"a keyword default is evaluated in the scope of each evaluation of the literal", `mk := {|n| {|x, step: n| x + step}}; f1 := mk(a); f2 := mk(b); om := {|n| {get: m{|k: n| k}}}; o1 := om(a); o2 := om(b); [f1(0), f2(0), f1(0), f2(0, step: 5), o1.get, o2.get]`,
 		func(r object.PanObject, a, b int64) bool { return arrOfInts(r, a, b, a, 5, a, b) }},
 	{"\\N is the N-th argument for every N (one and two digits)", `f := {|| [\1, \2, \3, \4, \5, \6, \7, \8, \9, \10, \11, \12, \0.len]}; f(a, 2, 3, 4, 5, 6, 7, 8, 9, 10, 11, b)`,
-		func(r object.PanObject, a, b int64) bool { return arrOfInts(r, a, 2, 3, 4, 5, 6, 7, 8, 9, 10, 11, b, 12) }},
+		func(r object.PanObject, a, b int64) bool {
+			return arrOfInts(r, a, 2, 3, 4, 5, 6, 7, 8, 9, 10, 11, b, 12)
+		}},
 	{"named parameters and \\N agree for a call with many arguments", `g := {|p1, p2, p3, p4, p5, p6, p7, p8, p9, p10, p11| [p10, \10, p11, \11, p9, \9]}; g(1, 2, 3, 4, 5, 6, 7, 8, a, b, 11)`,
 		func(r object.PanObject, a, b int64) bool { return arrOfInts(r, b, b, 11, 11, a, a) }},
+	{"(known finding C03/arg-vars-of-enclosing-call) \\N of a function called without arguments is not defined, also inside another call", `{|p| {|| \1}()}(a)`,
+		func(r object.PanObject, a, b int64) bool { return isErrKind(r, object.NameErr) }},
 	{"a method body sees its defining scope, not the receiver's properties as variables", `v := a; o := {v: b, get: m{|| v}}; o.get`,
 		func(r object.PanObject, a, b int64) bool { return isInt(r, a) }},
 }
@@ -250,6 +254,7 @@ var c03Scenarios = []c03S{
 // H_C03_scope: fixed scoping scenarios with symbolic int inputs a, b.
 func H_C03_scope() {
 	s := c03Scenarios[rt.Param(0)]
+	rt.Known("C03/arg-vars-of-enclosing-call", strings.HasPrefix(s.name, "(known finding C03/arg-vars-of-enclosing-call)"))
 	h := NewH()
 	a, b := rt.Int64(), rt.Int64()
 	rt.Assume(a > -1000000 && a < 1000000 && b > -1000000 && b < 1000000)
